@@ -16,6 +16,7 @@ import (
 type Metric struct {
 	Label  string
 	List   []string // L_M, in code order (index = code)
+	storeValidOnly bool // Enc holds for the codes of the specification's values only
 	Width  int      // number of code bits that can be non-zero
 	Enc    []BitPos // code bit j -> receiver bit; len == Width (valid only when storeOK)
 	W      map[BitPos]Bit
@@ -46,6 +47,10 @@ type SetModel struct {
 	Obls       []Obligation
 	AbvParam   types.Object
 	ValParam   types.Object
+	// Semantic: built by the hybrid evaluator (sset.go) because the syntactic model did not apply
+	Semantic     bool
+	SemanticRuns int
+	Fallback     string
 }
 
 type GetArm struct {
@@ -180,8 +185,32 @@ func outerSwitch(info *types.Info, fd *ast.FuncDecl) (*ast.SwitchStmt, types.Obj
 func (p *Pkg) SetModel() *SetModel {
 	if p.set == nil {
 		p.set = p.buildSetModel()
+		if setModelUndecided(p.set) {
+			if sem, err := p.buildSetModelSemantic(); err == nil {
+				p.set = sem
+			} else {
+				p.set.Fallback = err.Error() + posSuffix(p, err)
+			}
+		}
 	}
 	return p.set
+}
+
+// setModelUndecided: the syntactic model could not interpret Set (as opposed
+// to: interpreted it and found a violation)
+func setModelUndecided(sm *SetModel) bool {
+	if len(sm.Metrics) == 0 {
+		return true
+	}
+	for _, o := range sm.Obls {
+		if !o.OK && strings.Contains(o.Detail, "undecided") {
+			return true
+		}
+		if !o.OK && (strings.Contains(o.Detail, "outside the bit model") || strings.Contains(o.Detail, "does not validate the value")) {
+			return true
+		}
+	}
+	return false
 }
 
 func (p *Pkg) GetModel() *GetModel {
@@ -262,7 +291,45 @@ func (p *Pkg) buildSetModel() *SetModel {
 		}
 		m := &Metric{Label: labels[0], Arm: cc, Index: idx, W: map[BitPos]Bit{}, armPos: p.pos(cc)}
 		idx++
-		p.evalSetArm(sm, m, add)
+		p.evalSetArm(sm, m, 0, add)
+		// The formulas, the serializer and the nomenclature only need the
+		// layout of the *specification's* values. When Set's own list is
+		// longer (an extra, illegal value — reported by R09.values and, if it
+		// does not fit the field, by R07.store) and the full-list layout fails,
+		// the arm is re-evaluated for the codes of the specification values only.
+		m.storeValidOnly = false
+		if !m.encOK {
+			if om := vocab[p.Key].byAbv[m.Label]; om != nil {
+				validN := 0
+				all := len(om.Values) > 0
+				for _, v := range om.Values {
+					i := indexOf(m.List, v)
+					if i >= len(m.List) {
+						all = false
+						break
+					}
+					if i+1 > validN {
+						validN = i + 1
+					}
+				}
+				if all && validN < len(m.List) {
+					mv := &Metric{Label: m.Label, Arm: cc, Index: m.Index, W: map[BitPos]Bit{}, armPos: m.armPos}
+					p.evalSetArm(sm, mv, validN, func(bool, string, string, ast.Node, string) {})
+					if mv.encOK {
+						m.Enc, m.Width, m.encOK, m.storeValidOnly = mv.Enc, mv.Width, true, true
+					}
+				}
+			}
+		}
+		if m.encOK {
+			detail := "the codes of the specification's values are stored in the metric's own field"
+			if m.storeValidOnly {
+				detail += fmt.Sprintf(" (Set's list %v has more entries than the specification; the extra codes are outside this premise)", m.List)
+			}
+			add(true, "R07.storev", m.Label, cc, detail)
+		} else {
+			add(false, "R07.storev", m.Label, cc, "the layout of "+m.Label+" is not established even for the specification's values (see R07.store)")
+		}
 		if sm.ByLabel[m.Label] != nil {
 			add(false, "R07.guard", m.Label, cc, "duplicate arm")
 			continue
@@ -284,6 +351,15 @@ func (p *Pkg) buildSetModel() *SetModel {
 		add(refuses, "R09.default", "default", sm.Default, map[bool]string{true: "an unknown abbreviation is refused with a non-nil error", false: "an unknown abbreviation is not refused with a provably non-nil error: " + why}[refuses])
 		add(typed, "R18.default", "default", sm.Default, why)
 	}
+	p.setModelCross(sm, add)
+	return sm
+}
+
+// setModelCross: the rules that relate the metrics' fields to each other
+// (R07.overlap, R07.preserve, R07.unused), shared by the syntactic and the
+// semantic construction of the model.
+func (p *Pkg) setModelCross(sm *SetModel, add func(ok bool, rule, label string, n ast.Node, detail string)) {
+	fd := sm.Fn
 	// cross-arm: data bits of M are not in W of any other arm
 	overlap := false
 	for _, m := range sm.Metrics {
@@ -340,7 +416,6 @@ func (p *Pkg) buildSetModel() *SetModel {
 	used := len(sm.Owner)
 	sm.Obls = append(sm.Obls, Obligation{Rule: "R07.unused", Instance: p.Key + ".layout", Pos: p.pos(fd), OK: true, NonTrivial: true,
 		Detail: fmt.Sprintf("%d of %d bits carry metric data, %d unused; unused bits written (with constant 0 only): %d", used, len(p.Fields)*8, len(p.Fields)*8-used, unusedWritten)})
-	return sm
 }
 
 func isNilIdent(info *types.Info, e ast.Expr) bool {
@@ -512,7 +587,7 @@ func (p *Pkg) isTypedErrPtr(e ast.Expr, typeName string, abv types.Object) (bool
 }
 
 // evalSetArm interprets one arm of Set with the M3 evaluator.
-func (p *Pkg) evalSetArm(sm *SetModel, m *Metric, add func(ok bool, rule, label string, n ast.Node, detail string)) {
+func (p *Pkg) evalSetArm(sm *SetModel, m *Metric, nCodes int, add func(ok bool, rule, label string, n ast.Node, detail string)) {
 	info := p.Info
 	env := newBvEnv(p)
 	var codeObj, errObj types.Object
@@ -570,7 +645,11 @@ func (p *Pkg) evalSetArm(sm *SetModel, m *Metric, add func(ok bool, rule, label 
 		codeObj = identObj(info, as.Lhs[0])
 		errObj = identObj(info, as.Lhs[1])
 		if codeObj != nil {
-			env.locals[codeObj] = bvCode(len(m.List))
+			if nCodes > 0 && nCodes <= len(m.List) {
+				env.locals[codeObj] = bvCode(nCodes)
+			} else {
+				env.locals[codeObj] = bvCode(len(m.List))
+			}
 		}
 	}
 	isErrCmp := func(c ast.Expr, op token.Token) bool {
@@ -719,6 +798,9 @@ func (p *Pkg) evalSetArm(sm *SetModel, m *Metric, add func(ok bool, rule, label 
 		add(true, "R07.guard", m.Label, m.Arm, fmt.Sprintf("%d store(s), all dominated by err == nil of validate(value, %d values); failing branch store-free", nStores, len(m.List)))
 	}
 	m.Width = bitlen(len(m.List) - 1)
+	if nCodes > 0 && nCodes <= len(m.List) {
+		m.Width = bitlen(nCodes - 1)
+	}
 	// final state
 	landed := map[int][]BitPos{}
 	storeOK := true
@@ -1072,7 +1154,10 @@ func (w *World) ruleWriters(p *Pkg, out *[]Obligation) {
 			continue
 		}
 		nfuncs++
-		if fd != setFn {
+		// writers that matter: functions on a path of the documented API other
+		// than through Set (Set's own stores are the Set model's business; an
+		// exported mutator added next to the API has its own contract)
+		if fd != setFn && p.API().NotSet[fd] {
 			for _, st := range p.fieldStores(fd.Body) {
 				bad++
 				*out = append(*out, Obligation{Rule: "R07.writers", Instance: p.Key + "." + n, Pos: p.pos(st), OK: false, NonTrivial: true,
@@ -1164,7 +1249,53 @@ func (p *Pkg) readersTransitive(n ast.Node) []Reader {
 
 // getSemantic tabulates Get(label) over all codes of the metric and returns the
 // receiver bits the arm (or, without a recognisable arm, the whole function) reads.
+// getSemanticHybrid: Get(label) explored on a symbolic receiver (hybrid.go).
+// The bits the exploration had to split on are exactly the bits the result
+// depends on; the table is read off the leaves.
+func (p *Pkg) getSemanticHybrid(gm *GetModel, m *Metric) (map[int]string, []BitPos, error) {
+	leaves, split, err := p.explore(gm.Fn, []Val{vStr(m.Label)}, 512)
+	if err != nil {
+		return nil, nil, err
+	}
+	tbl := map[int]string{}
+	for c := 0; c < 1<<uint(m.Width); c++ {
+		for _, lf := range leaves {
+			consistent := true
+			for j, pos := range m.Enc {
+				if v, ok := lf.Assume[pos]; ok && v != (c>>uint(j)&1 == 1) {
+					consistent = false
+				}
+			}
+			if !consistent {
+				continue
+			}
+			if lf.Err != nil {
+				if c < len(m.List) {
+					return nil, nil, fmt.Errorf("Get(%s) on code %d: %v", m.Label, c, lf.Err)
+				}
+				break
+			}
+			v := lf.Ret
+			if v.K != VTuple || len(v.T) != 2 || v.T[0].K != VStr {
+				if c < len(m.List) {
+					return nil, nil, fmt.Errorf("Get(%s) on code %d returned %s", m.Label, c, v)
+				}
+				break
+			}
+			if v.T[1].K != VNil && c < len(m.List) {
+				return nil, nil, fmt.Errorf("Get(%s) on code %d returned the error %s", m.Label, c, v.T[1])
+			}
+			tbl[c] = v.T[0].S
+			break
+		}
+	}
+	return tbl, split, nil
+}
+
 func (p *Pkg) getSemantic(gm *GetModel, m *Metric) (map[int]string, []BitPos, error) {
+	if tbl, deps, err := p.getSemanticHybrid(gm, m); err == nil {
+		return tbl, deps, nil
+	}
 	tbl := map[int]string{}
 	for c := range m.List {
 		bytes, err := p.bytesFromCodes(map[string]int{m.Label: c})
